@@ -4,6 +4,7 @@ import itertools
 from .env import np, puan, pnd
 
 BOUNDS7 = [(0, 1), (-1, 1), (0, 2), (-2, 0), (1, 1), (0, 3), (-2, 2)]
+BOUNDS9 = BOUNDS7 + [(1, 3), (-3, -1)]
 BOUNDS3 = [(0, 1), (-1, 1), (0, 2)]
 BOUNDS4 = [(0, 1), (-1, 1), (0, 3), (-2, 0)]
 
@@ -19,6 +20,8 @@ SPACES = {
     "3x2": (3, 2, (-1, 0, 1, 2), (0, 1), [(0, 1), (0, 2)]),
     "2x3q": (2, 3, (-1, 0, 2), (0, 1, 2), [(0, 1), (-1, 1)]),
     "3x2q": (3, 2, (-1, 0, 2), (0, 1), [(0, 1), (0, 2)]),
+    "1x2w": (1, 2, range(-3, 4), range(-4, 6), BOUNDS9),
+    "2x2p": (2, 2, (-2, -1, 1, 3), (-2, 0, 1, 3), [(1, 3), (-3, -1), (0, 1)]),
     # thorough
     "2x2T": (2, 2, range(-2, 3), range(-3, 5), [(0, 1), (-1, 1), (0, 2), (-2, 0), (0, 3)]),
     "1x3T": (1, 3, range(-3, 4), range(-3, 5), BOUNDS4),
